@@ -106,6 +106,7 @@ var schemaKeys = map[string][][]string{
 	"C01": {{"keyper/database", "decryption_key", "eon", "epoch_id"}, {"keyper/database", "decryption_key_share", "eon", "epoch_id", "keyper_index"}},
 	"C03": {{"keyper/database", "decryption_key_share", "eon", "epoch_id", "keyper_index"}},
 	"C04": {{"keyper/database", "decryption_key", "eon", "epoch_id"}},
+	"C05": {{"keyper/database", "decryption_key_share", "eon", "epoch_id", "keyper_index"}},
 	"C06": {{"keyperimpl/gnosis/database", "slot_decryption_signatures", "eon", "slot", "keyper_index"}, {"keyperimpl/shutterservice/database", "decryption_signatures", "eon", "keyper_index", "identities_hash"}},
 	"C08": {{"keyper/database", "puredkg", "eon"}, {"keyper/database", "eons", "eon"}, {"keyper/database", "tendermint_batch_config", "keyper_config_index"}, {"keyper/database", "tendermint_outgoing_messages", "id"}, {"keyper/database", "dkg_result", "eon"}},
 	"C15": {{"keyperimpl/gnosis/database", "transaction_submitted_events_synced_until", "enforce_one_row"}, {"keyperimpl/shutterservice/database", "identity_registered_events_synced_until", "enforce_one_row"}, {"keyperimpl/shutterservice/database", "multi_event_sync_status", "enforce_one_row"}, {"keyperimpl/gnosis/database", "transaction_submitted_event", "index", "eon"}},
